@@ -595,7 +595,7 @@ def run(chk, p, t):
         "the job identity field of each result class (JOB_KEY table) is in 1-1 correspondence with the enqueue loop variable",
     ]
     ea = EffectAnalysis(p, t)
-    for fn in (rule_r1, rule_r2, rule_r3, rule_r4, rule_r5, rule_r6, rule_r7):
+    for fn in (rule_r1, rule_r2, rule_r3, rule_r4, rule_r5, rule_r6, rule_r7, rule_r8):
         rid = "C08.R" + fn.__name__[-1]
         if not chk.wants(rid):
             continue
@@ -607,6 +607,23 @@ def run(chk, p, t):
                 rr.undecided(fn.__name__, str(e))
             else:
                 rr.error(fn.__name__, f"vanished anchor: {e}")
+
+
+def rule_r8(chk, p, t, ea):
+    r = chk.rule(
+        "C08.R8",
+        "the observations routed to an estimate reach its filter whole",
+        1,
+        "the per-target list the scenario builds from the engine's observation buffer is filled in the order the "
+        "task-execution jobs complete; the estimate-update registration stores that list itself, submits that attribute "
+        "and the job hands it to the filter's update - no hop keeps a subset chosen by position in the list (first "
+        "observation per key wins: the survivor then depends on the completion order) - shared instance of C19.R4's "
+        "update hop; a stored / submitted expression that is neither the list nor a recognised selection is undecided",
+        "the numerical effect of the order of the observations inside the filter (C16)",
+    )
+    from rules.C19 import update_hop
+
+    r.guard("update-hop", lambda: update_hop(r, p))
 
 
 def _grouped_routing(step, p, t, r, pm):
